@@ -33,6 +33,11 @@ theorem invG_addReleased (s : PSys) (m : OMsg) (hG : InvG s) : InvG (addReleased
 
 theorem invG_step (s s' : PSys) (e : Event) (h : applyEvent s e = .ok s') (hG : InvG s) : InvG s' := by
   cases e with
+  | read r =>
+    simp only [applyEvent, ok] at h
+    split at h
+    · cases h; exact hG
+    · cases h
   | release i key =>
     simp only [applyEvent, ok] at h
     split at h
@@ -337,6 +342,11 @@ theorem invC2_step (c0 : Cfg) (hne : c0.incoming ≠ [] ∨ c0.outgoing ≠ []) 
     (hL : InvL s) (hL' : InvL s') (hA : InvA s) (hA' : InvA s')
     (hB : InvB c0 s) (hB' : InvB c0 s') (hC : InvC c0 s) (g : Grow s s') (hG : InvG s) : InvC2 s' := by
   cases e with
+  | read r =>
+    simp only [applyEvent, ok] at h
+    split at h
+    · cases h; exact ⟨hC.c2.rgo, hC.c2.rgr⟩
+    · cases h
   | release i key => exact invC2_release s s' i key h hR hL hA hC.c1 hC.c2 g
   | bump i t | win i cfg q | stepDown i | leaderAppend i e | commitLeader i c cfg q | commitApp i c m
   | commitHB i c m | commitClaim i m | bootstrap i donor idx =>
